@@ -79,10 +79,11 @@ def setup() -> int:
     if hits:
         print("setup: hygiene violations:\n" + "\n".join(hits))
         rc = 1
-    res = common.coq_make([])
+    res = common.coq_make(["-k"])
     if not res.ok:
-        print("setup: make failed\n" + res.log[-4000:])
-        rc = 1
+        # per-property isolation: every check rebuilds exactly its own targets and reports a broken
+        # proof itself, so a file that fails here must not stop the other properties from being set up
+        print("setup: some Coq files failed to build (the owning checks will report them):\n" + res.log[-3000:])
     print(f"setup done in {time.time() - t0:.1f}s rc={rc}")
     return rc
 
